@@ -920,6 +920,145 @@ def _float_streams(ctx, cs):
                branch="find_unique:" + ("ok" if r[0] == "ok" else r[0]))
 
 
+# ---- n2p.find_xyz_triples on dyadic rigid-body matrices -----------------------------------------
+XDEN = 16
+
+
+def _skew(p):
+    x, y, z = p
+    return [[0, z, -y], [-z, 0, x], [y, -x, 0]]
+
+
+def _gen_rb(rng):
+    """rows (6 Fractions each, multiples of 1/16, |.| <= 128) of a rigid-body matrix: nodes at quarter coordinates in
+    signed-permutation / slightly sheared / clearly non-orthogonal local systems, scaled, with rotation rows, deleted
+    rows, perturbed rotation columns; returns (rows, tol as (tn, td), tags)"""
+    from fractions import Fraction as F
+
+    tags = set()
+    rows = []
+    for _ in range(rng.randint(1, 4)):
+        p = [F(rng.randint(-32, 32), 4) for _ in range(3)]
+        if rng.random() < 0.15:
+            p = [F(0)] * 3
+        perm = rng.sample(range(3), 3)
+        T = [[F(0)] * 3 for _ in range(3)]
+        for i, j in enumerate(perm):
+            T[i][j] = F(rng.choice([1, 1, -1]))
+        r0 = rng.random()
+        if r0 < 0.12:
+            T[0][(perm[0] + 1) % 3] = F(1, 4)  # slightly sheared: within tol = 0.3 only
+            p = [F(int(v)) for v in p]
+            tags.add("sheared")
+        elif r0 < 0.2:
+            T[rng.randrange(3)] = [v * 2 for v in T[rng.randrange(3)]]  # unequal axes / repeated direction
+            tags.add("non-orthogonal")
+        sc = F(rng.choice([1, 1, 1, 2, 4, 10, 3]))
+        base = [[F(int(i == j)) for j in range(3)] + [F(v) for v in _skew(p)[i]] for i in range(3)]
+        blk = [[sc * sum(T[i][k] * base[k][j] for k in range(3)) for j in range(6)] for i in range(3)]
+        if rng.random() < 0.3:
+            i, j = rng.randrange(3), 3 + rng.randrange(3)
+            blk[i][j] += F(rng.choice([1, 2, 4, 8, 16, 32]), 16) * rng.choice([1, -1])
+            tags.add("perturbed")
+        if rng.random() < 0.15:
+            del blk[rng.randrange(3)]
+            tags.add("row-deleted")
+        rows += blk
+        if rng.random() < 0.4:
+            rows += [[F(0)] * 3 + [sc * T[i][j] for j in range(3)] for i in range(3)]
+            tags.add("rotation-rows")
+    tol = (1, 100) if rng.random() < 0.8 else (3, 10)
+    return rows, tol, tags
+
+
+def _xyz_singular_window(rows, tol):
+    """a window whose translation block is exactly singular but has three equal column norms (the only place where the
+    outcome would hang on the numerical condition number / a LinAlgError of inv): outside the domain"""
+    from fractions import Fraction as F
+
+    d = F(tol[0], tol[1]) + F(1, 100000)
+    for j in range(len(rows) - 2):
+        A = [r[:3] for r in rows[j:j + 3]]
+        det = (A[0][0] * (A[1][1] * A[2][2] - A[1][2] * A[2][1]) - A[0][1] * (A[1][0] * A[2][2] - A[1][2] * A[2][0])
+               + A[0][2] * (A[1][0] * A[2][1] - A[1][1] * A[2][0]))
+        if det != 0:
+            continue
+        s2 = sum(v * v for r in A for v in r) / 3
+        if s2 == 0:
+            continue
+        cols = [sum(A[i][j_] ** 2 for i in range(3)) for j_ in range(3)]
+        if all((1 - d) ** 2 * s2 <= c <= (1 + d) ** 2 * s2 for c in cols):
+            return True
+    return False
+
+
+def _xyz_impl(rows, tol):
+    n2p, _ = _mods()
+    a = np.array([[float(v) for v in r] for r in rows], dtype=float).reshape(-1, 6)
+    r = _call(n2p.find_xyz_triples, a, tol=tol[0] / tol[1])
+    if r[0] != "ok":
+        return r[0]
+    t = r[1]
+    return {"pv": [int(v) for v in t.pv], "coords": np.asarray(t.coords).tolist(),
+            "scales": np.asarray(t.scales).tolist(), "model_scale": float(t.model_scale)}
+
+
+def _xyz_match(impl, got):
+    """exact pv, numeric coordinates / scales / model scale (1e-9 relative)"""
+    from fractions import Fraction as F
+
+    if not isinstance(impl, dict) or not got.startswith("ok"):
+        return False
+    secs = [x.strip() for x in got[2:].split("|")]
+    if len(secs) != 4:
+        return False
+    pv = [int(v) for v in secs[0].split()]
+    if pv != impl["pv"]:
+        return False
+    close = lambda a, b: abs(a - b) <= 1e-9 * max(1.0, abs(a), abs(b))
+    cz = [x.strip() for x in secs[1].split(";")] if secs[1] else []
+    if len(cz) != len(pv) or len(secs[2].split()) != len(pv):
+        return False
+    for c, s2, ci, si in zip(cz, secs[2].split(), impl["coords"], impl["scales"]):
+        if c == "nan":
+            if not (all(v != v for v in ci) and si != si and s2 == "nan"):
+                return False
+            continue
+        if any(v != v for v in ci) or si != si:
+            return False
+        if not all(close(float(F(q)), v) for q, v in zip(c.split(), ci)):
+            return False
+        if not close(float(F(s2)) ** 0.5, si):
+            return False
+    return close(float(F(secs[3])), impl["model_scale"])
+
+
+def _xyz_stream(ctx, cs):
+    rng = ctx.rng
+    from fractions import Fraction as F
+
+    doc1 = [[1, 0, 0, 0, 15, -10], [0, 1, 0, -15, 0, 5], [0, 0, 1, 10, -5, 0], [0, 0, 0, 1, 0, 0], [0, 0, 0, 0, 1, 0],
+            [0, 0, 0, 0, 0, 1], [10, 0, 0, 0, 150, -100], [0, 10, 0, -150, 0, 50], [0, 0, 10, 100, -50, 0]]
+    doc2 = [[0, 1, 0, 0, 0, 2], [0, 0, 1, 0, -2, 0], [1, 0, 0, 0, 0, 0], [0, 1, 0, 0, 0, 5], [0, 0, 1, 0, -5, 0]]
+    fixed = [([[F(v) for v in r] for r in m], (1, 100), {"docstring"}) for m in (doc1, doc2)]
+    for it in range(ctx.pick(250, 2500)):
+        rows, tol, tags = fixed[it] if it < len(fixed) else _gen_rb(rng)
+        if _xyz_singular_window(rows, tol):
+            ctx.skip("find_xyz_triples: a singular window with equal column norms (decided by cond / inv numerics)")
+            continue
+        impl = _xyz_impl(rows, tol)
+        line = "xyz %d %d %d | %s" % (XDEN, tol[0], tol[1], " ; ".join(" ".join(str(int(v * XDEN)) for v in r) for r in rows))
+        if isinstance(impl, dict):
+            k = sum(impl["pv"])
+            br = "xyz:" + ("none" if k == 0 else "all-rows" if k == len(rows) else "some-rows")
+        else:
+            br = "xyz:" + impl
+        for t in tags:
+            ctx.count("xyz-input:" + t)
+        cs.add("find_xyz_triples", line, impl, {"rows": [[str(v) for v in r] for r in rows], "tol": list(tol)},
+               nontrivial=isinstance(impl, dict) and sum(impl["pv"]) > 0, branch=br)
+
+
 def _index_streams(ctx, cs):
     """n2p._findse / n2p._get_node_ids (private helpers of upasetpv / upqsetpv; skipped when a refactoring removed
     them), mat_intersect with every value of keep on data whose matching rows are not in sorted order"""
@@ -1005,9 +1144,20 @@ def correspondence(ctx):
         _nas_streams(ctx, cs)
     _locate_streams(ctx, cs)
     _index_streams(ctx, cs)
+    _xyz_stream(ctx, cs)
     _float_streams(ctx, cs)
     rep = ctx.driver("C18").ask([it[1] for it in cs.items])
     for (stream, line, impl, inp, nontriv, branch), got in zip(cs.items, rep):
+        if stream == "find_xyz_triples":
+            got_c = " ".join(got.split())
+            if got_c == "borderline":  # a floating-point comparison within 1e-9 of its threshold: outside the domain
+                ctx.skip("find_xyz_triples: a comparison is within 1e-9 (relative) of its threshold")
+                continue
+            ctx.case(line, nontrivial=nontriv, branch=branch)
+            ctx.count("stream:" + stream)
+            if not _xyz_match(impl, got_c):
+                ctx.disagree(stream, inp, impl, got_c[:600])
+            continue
         ctx.case(line, nontrivial=nontriv, branch=branch)
         ctx.count("stream:" + stream)
         if stream == "upqsetpv-separate-real":
@@ -1052,6 +1202,8 @@ def correspondence(ctx):
         "upqsetpv:separate", "upqsetpv:separate-real", "upqsetpv:depth-3", "upqsetpv:depth-4",
         "upqsetpv:several-upstream", "upqsetpv:several-upstream-above-residual", "upqsetpv:maps-reordered",
         "upqsetpv:maps-reordered-above-residual", "upqsetpv:recursion-error", "upqsetpv:shared-boundary", "upqsetpv:later-upstream-overwrites", "upqsetpv:lean-examples",
+        "xyz:all-rows", "xyz:some-rows", "xyz:none", "xyz-input:docstring", "xyz-input:rotation-rows",
+        "xyz-input:sheared", "xyz-input:perturbed", "xyz-input:row-deleted", "xyz-input:non-orthogonal",
         "mat_intersect-order:unsorted-values", "mat_intersect-order:keep0", "mat_intersect-order:keep1",
         "mat_intersect-order:keep2", "mat_intersect-order:keep-other",
     ] + (["findse:absent", "findse:once", "findse:repeated"] if ctx.extra["private_helpers_present"]["_findse"] else [])
